@@ -491,11 +491,11 @@ def item_accepts(t, x) -> bool:
     origin = CLS_BY_NAME[t["origin"]]
     if type(x) is origin:
         return accept_cs([(k, decode(b)) for k, b in t["cs"]], x)
-    if origin in (int, float, Decimal) and isinstance(x, str):
+    if origin in (int, float, Decimal) and isinstance(x, str) and any(ch.isalpha() for ch in x):
         try:
             Decimal(x.strip())
         except Exception:
-            return False          # a non-numeric string does not convert to a number
+            return False          # a string with letters that is not a number does not convert to a number
     raise Undefined               # conversions between types are C12's business
 
 
@@ -503,37 +503,47 @@ def decl_expected(case) -> bool:
     vis = visible(case)
     v = decode(case["value"])
 
-    def one(vv) -> bool:
+    def pad(x, cs):
+        d = dict(cs).get("decimal_places")
+        return x.quantize(Decimal(1).scaleb(-d)) if isinstance(x, Decimal) and d is not None and x.is_finite() else x
+
+    def one(vv, v):
+        """-> (verdict, the value as the documented order leaves it: Decimals completed to decimal_places, rule.md)"""
         if vv["lax"]:
             raise Undefined
-        ok = accept_cs(vv["cs"], v)
+        ok = True
+        items = None
         if vv["args"] is not None:
+            # documented order: the element type converts the items first, then the container's own constraints
             ts = vv["args"]
             if isinstance(v, tuple) and not vv["ellipsis"]:
                 if len(v) != len(ts):
                     raise Undefined
-                ok = all([item_accepts(t, x) for t, x in zip(ts, v)]) and ok
+                per = list(zip(ts, v))
             else:
-                ok = all([item_accepts(ts[0], x) for x in v]) and ok
+                per = [(ts[0], x) for x in v]
+            ok = all([item_accepts(t, x) for t, x in per])
+            items = [pad(x, [(k, decode(b)) for k, b in t["cs"]]) for t, x in per]
+        ok = accept_cs(vv["cs"], v) and ok
         if vv["contains"] is not None:
             t, mn, mx = vv["contains"]
-            items = list(v)
-            if vv["args"] is not None and ok:
-                # documented order: the element type converts the items first (a Decimal is completed to the element
-                # type's decimal_places, rule.md), `contains` then looks at the converted items
-                ts = vv["args"]
-                per = list(zip(ts, items)) if (isinstance(v, tuple) and not vv["ellipsis"]) else [(ts[0], x) for x in items]
-                items = [x.quantize(Decimal(1).scaleb(-dict((k, decode(b)) for k, b in t_["cs"])["decimal_places"]))
-                         if isinstance(x, Decimal) and any(k == "decimal_places" for k, _ in t_["cs"]) else x for t_, x in per]
-            n = sum([1 for x in items if item_accepts(t, x)])
+            n = sum([1 for x in (items if items is not None else list(v)) if item_accepts(t, x)])
             ok = ok and n >= 1 and (mn is None or n >= mn) and (mx is None or n <= mx)
         if vv["hook"] is not None:
             ok = hook_ok(vv["hook"], v) and ok
-        return ok
-    ok = one(vis)
+        out = v
+        if items is not None and ok:
+            try:
+                out = type(v)(items)
+            except Exception:
+                out = v
+        return ok, pad(out, vv["cs"])
     if vis["nested"] is not None:
-        ok = one(vis["nested"]) and ok
-    return ok
+        ok1, v1 = one(vis["nested"], v)       # the constrained base type converts first …
+        if not ok1:
+            return False
+        return one(vis, v1)[0]                # … then the constraints given to Field(...) apply to its output
+    return one(vis, v)[0]
 
 
 def impl_decl(case):
